@@ -6,7 +6,7 @@ CONSTANTS
   MaxInc = 7
   LbBig = 1000
   FixRetire = FALSE
-  Routing0 = "keyp"
+  Routing0 = "custom"
   Workers0 = 2
   Lim0 <- Lim1
   Mode0 = "oldest"
@@ -14,14 +14,14 @@ CONSTANTS
   RlRefill = 1
   RlInterval = 2
   RlMax = 1
-  JobKeys <- Keys1121
+  JobKeys <- Keys1212
   JobTtl <- NoTtl4
   PortJobs = {2}
   Ends = {"ok", "panic"}
   MaxKills = 1
   MaxFaults = 1
-  Resizes <- Res31
-  MayDrain = TRUE
+  Resizes <- Res12
+  MayDrain = FALSE
   MaxT = 0
   TStep = 1
   FreeOrder = FALSE
